@@ -68,12 +68,14 @@ SCHEMA = 'SCHEMA iv;\n' + '\n'.join(v[0] for v in VARIANTS.values()) + '\nEND_SC
 def populations(vname, desc, tier):
     """yield (insts, expectation): expectation[target id][inverse name] = sorted referrer ids"""
     tgt = desc['targets'][0]
-    for ntargets in (1, 2):
+    for ntargets in ((1, 2) if tier == 'quick' else (1, 2, 3)):
         tids = list(range(1, ntargets + 1))
         tinsts = ['#%d=%s(%s);' % (i, tgt.upper(), ','.join([str(i * 10)] * desc.get('tparams', {}).get(tgt, 1))) for i in tids]
         # referrer slots: up to 3 referrer instances, each of one referrer entity
         rents = desc['referrers']
         maxref = 2 if tier == 'quick' and len(rents) > 1 else 3
+        if tier == 'thorough' and all(len(a) == 1 and a[0][1] == 'single' for _, a in rents) and len(rents) <= 2 and ntargets <= 2:
+            maxref = 4
         for nref in range(0, maxref + 1):
             for ents in itertools.product(rents, repeat=nref):
                 # per referrer, per attribute: value choices
